@@ -18,9 +18,9 @@ Import ListNotations.
 Open Scope N_scope.
 Definition off := gen_offset.
 (* codec: implementation key code point / decoded exponent / acceptance vs the model *)
-Definition codec_ok (e cp dec : N) (accepted : bool) : bool :=
-  if accepted then (representable off e) && (encode off e =? cp) && (decode off cp =? dec) && (dec =? e)
-  else negb (representable off e).
+Definition codec_ok (sur : bool) (e cp dec : N) (accepted : bool) : bool :=
+  if accepted then (representable sur off e) && (encode off e =? cp) && (decode off cp =? dec) && (dec =? e)
+  else negb (representable sur off e).
 Definition lib_fast (p q : rpoly) : list N -> list N -> bool :=
   if gen_guard_kind =? 1 then max_guard off gen_guard_bound p q else (fun _ _ => true).
 Fixpoint rp_eqb (a b : rpoly) : bool :=
@@ -66,6 +66,18 @@ def terms_of(p):
         if v != 0:
             out[tuple(int(e) for e in r)] = out.get(tuple(int(e) for e in r), 0) + v
     return out
+
+
+def numpy_takes_surrogates():
+    """Environment fact, measured on numpy alone: may a structured field be named by a lone UTF-16 surrogate?"""
+    try:
+        dt = numpy.dtype([(chr(0xD800), "i8"), (chr(0xDFFF), "i8")])
+        a = numpy.zeros(2, dtype=dt)
+        a[chr(0xD800)] = 3
+        names = numpy.array(dt.names).view(numpy.uint32).tolist()
+        return names == [0xD800, 0xDFFF] and int(a[chr(0xD800)][0]) == 3
+    except Exception:  # noqa: BLE001
+        return False
 
 
 def codec_probe(e, off):
@@ -152,10 +164,14 @@ def run(report, tier, seed):
                    | {55236, 55237, 57284, 57285, 65535 - off, 65536, 1114111 - off, 1114112 - off, 1114112, 1200000})
     sample = set(rng.sample(range(top + 1), 1200 if tier == "quick" else 6000)) | {0, 1, 68, 69, 196, 197, 255, 256, 54999, 55000}
     n_codec = 0
+    sur = numpy_takes_surrogates()
+    csur = "true" if sur else "false"
+    report.coverage["numpy_accepts_surrogate_field_names"] = sur
     for e in list(range(top + 1)) + extra:
         st, cp, dec, dec2 = codec_probe(e, off)
         n_codec += 1
-        rep_ok = (e + off < 2 ** 32) and (0 < e + off) and (e + off < 0xD800 or 0xE000 <= e + off <= 0x10FFFF)
+        rep_ok = (e + off < 2 ** 32) and (0 < e + off) and (e + off < 0xD800 or 0xE000 <= e + off <= 0x10FFFF
+                                                             or (sur and e + off <= 0x10FFFF))
         if st == "ok":
             if not (cp == e + off and dec == e):
                 viol.append((f"exponent {e}: stored key code point {cp}, decoded exponent {dec} (a different monomial)",
@@ -168,9 +184,9 @@ def run(report, tier, seed):
                 viol.append((f"exponent {e} below 55000 rejected with {cp}", {"kind": "codec-reject", "exponent": e}))
         if e in sample or e in extra:
             if st == "ok":
-                cc.add(f"codec_ok {cN(e)} {cN(cp)} {cN(dec)} true", {"kind": "codec", "e": e, "impl": [st, cp, dec]})
+                cc.add(f"codec_ok {csur} {cN(e)} {cN(cp)} {cN(dec)} true", {"kind": "codec", "e": e, "impl": [st, cp, dec]})
             elif st == "err":
-                cc.add(f"codec_ok {cN(e)} 0 0 false", {"kind": "codec", "e": e, "impl": [st, cp]})
+                cc.add(f"codec_ok {csur} {cN(e)} 0 0 false", {"kind": "codec", "e": e, "impl": [st, cp]})
     report.sample({"codec": "exponent 54999", "impl": codec_probe(54999, off)})
 
     # (b) products (c*q0**a)*(d*q0**b), all pairs with a+b <= bound
@@ -283,7 +299,7 @@ def run(report, tier, seed):
                              found_input=False)
     report.coverage["trusted_base"] = ["Coq 8.16.1 kernel + VM", "Coq stdlib (NArith, ZArith, Lia)",
                                        "translator harness/translators/key_tr.py", "harness oracle arithmetic for stream (c)"]
-    report.assumptions += ["numpy's acceptance of a code point as structured field name is modelled by valid_cp (validated on every value of (a))",
+    report.assumptions += ["numpy's acceptance of a code point as structured field name is modelled by valid_cp; whether lone surrogates are accepted is measured on numpy itself (numpy_takes_surrogates) and passed to the model (validated on every value of (a))",
                            "the compiled kernel's UTF-8 decode is modelled only for bytes < 128 (everything else: error or merge, reported as None)"]
 
 
